@@ -138,6 +138,13 @@ def run_check(prop_id, tier, seed):
         lines.append('KNOWN-FINDING: property=%s %s [%s]' % (prop_id, k.get('what', ''), key))
     n = 0
     seen_keys = set()
+    # replay files of an earlier run of this property and seed are not this run's
+    import glob
+    for old_file in glob.glob(os.path.join(common.REPLAY_DIR, '%s-%d-*.json' % (prop_id, seed))):
+        try:
+            os.remove(old_file)
+        except OSError:
+            pass
     for v in new_violations:
         if v['key'] in seen_keys:
             continue
